@@ -1582,3 +1582,48 @@ pub fn limit_crash_programs() -> Vec<Program> {
         ),
     ]
 }
+
+/// Spin loops mixed with blocking primitives: a flag store is inserted at every position of
+/// every thread of small LOCK programs and a further thread spins (with yield) on the flag,
+/// optionally taking the mutex afterwards.
+pub fn spin_lock_family(tier: &str) -> Vec<Program> {
+    let base = if tier == "quick" { lock_family(1, 0, 2, 2, 4, true, false) } else { lock_family(1, 0, 2, 3, 6, true, false) };
+    let mut out = vec![];
+    let mut seen = HashSet::new();
+    for b in &base {
+        let nchild = b.threads.len() - 1;
+        for t in 1..=nchild {
+            for pos in 0..=b.threads[t].len() {
+                for tail in 0..2 {
+                    let mut q = insert_op(b, t, pos, st(0, 1, Rel));
+                    q.objs.atomics = vec![0];
+                    let mut spinner: Vec<Op> = vec![K::Await { a: 0, mo: Acq, want: 1 }.into()];
+                    if tail == 1 {
+                        spinner.push(K::Lock { m: 0 }.into());
+                        spinner.push(K::Unlock { m: 0 }.into());
+                    }
+                    // rebuild main: spawn all (incl. the spinner), join all
+                    let mut children: Vec<Vec<Op>> = q.threads[1..].to_vec();
+                    children.push(spinner);
+                    let p = with_main("SPIN+LOCK", q.objs.clone(), vec![], children.clone(), vec![], vec![]);
+                    if seen.insert(p.text()) {
+                        out.push(p);
+                    }
+                    // the same with the last lock thread's ops run by main between spawn and join
+                    // (three threads: main blocked on the mutex, a holder, the spinner)
+                    if children.len() >= 3 {
+                        let mut ch2 = children.clone();
+                        let main_ops = ch2.remove(children.len() - 2);
+                        if main_ops.iter().all(|o| o.g.is_none()) {
+                            let p = with_main("SPIN+LOCK-main", q.objs.clone(), vec![], ch2, main_ops, vec![]);
+                            if seen.insert(p.text()) {
+                                out.push(p);
+                            }
+                        }
+                    }
+                }
+            }
+        }
+    }
+    out
+}
